@@ -121,6 +121,23 @@ def classify(cfg, ref_cfg, sess, what):
     return 'multi(%s):%s' % ('+'.join(d2), what)
 
 
+def attribute(impl, wd, p, cfg, ref_cfg, ref_ob, what, pi, j):
+    """a run that differs from the reference in several dimensions failed: re-run the program with
+    each of those dimensions alone (same rank count, same delivery form) to name the one responsible"""
+    dims = [d for d in G.cfg_diff(cfg, ref_cfg) if d not in ('np', 'via', 'naggr')]
+    for d in dims:
+        c1 = dict(ref_cfg); c1['np'] = cfg['np']; c1['via'] = cfg['via']; c1[d] = cfg[d]
+        lrng = C.SplitMix64(C.hash_str('attr%d_%d_%s' % (pi, j, d)))
+        sess, trace = G.layout(p, c1, lrng)
+        r = run_all([('attr%d_%d_%s' % (pi, j, d), sess.text(), None)], impl, wd, jobs=1, timeout=90)[0]
+        bad = r.hang or bool(r.crash)
+        if not bad:
+            bad = bool(judge(sess, r)) or bool(G.compare(p, ref_ob, G.observe(p, sess, trace, r)))
+        if bad:
+            return classify(c1, ref_cfg, sess, what)
+    return None
+
+
 # ---------------------------------------------------------------------------------- 1. differential
 def differential(ctx, impl, wd, stats, nprog, nextra, layout_cases):
     rng = ctx.rng.fork('diff')
@@ -201,6 +218,8 @@ def differential(ctx, impl, wd, stats, nprog, nextra, layout_cases):
             else:
                 w, detail = diffs[0]
             key = classify(cfg, ref_cfg, sess, w)
+            if key.startswith('multi(') and key not in reported:
+                key = attribute(impl, wd, p, cfg, ref_cfg, ref_ob, w, m[0], j) or key
             if key in reported:
                 continue
             reported.add(key)
@@ -368,6 +387,16 @@ def info_cases(ctx, info_exe, wd, stats, n):
                 st[t[1]] = line
         if 'D done' not in pout or prc != 0:
             bad.append((c, 'c10_info did not complete (rc %d): %s' % (prc, pout[-300:]), pout)); continue
+        import re as _re
+        m_end = _re.search(r'rc=(-?\d+)', st.get('enddef', ''))
+        rc_end = int(m_end.group(1)) if m_end else None
+        if rc_end not in (0, None):
+            # enddef failed (e.g. NC_EVARSIZE: a huge alignment pushes the data past the CDF-1/2 limit):
+            # the model must refuse the layout as well
+            stats['info_enddef_errors'] = stats.get('info_enddef_errors', 0) + 1
+            if list(lay) != [-1] or rc_end != -62:
+                bad.append((c, 'enddef returns %d, model layout %s' % (rc_end, list(lay)), pout))
+            continue
         def numsof(d):
             out = []
             for k in G.KEY_NAMES:
